@@ -534,7 +534,9 @@ pub fn oracle_c13(cfg: &LwCfg, tr: &Trace) -> Option<Violation> {
 
 /// C12: transmission behaviour per send mode, judged from the wire and from the ack frames handed
 /// to the sender.
-pub fn oracle_c12(cfg: &LwCfg, si: &ScriptInfo, tr: &Trace, check_resend_liveness: bool) -> Option<Violation> {
+pub fn oracle_c12(cfg: &LwCfg, si: &ScriptInfo, tr: &Trace, check_resend_liveness: bool) -> Vec<Violation> {
+    let mut out: Vec<Violation> = Vec::new();
+    let mut push = |v: Violation, out: &mut Vec<Violation>| { if !out.iter().any(|x| x.sig == v.sig) { out.push(v); } };
     for side in 0..2 {
         let start_base = cfg.pbase[side];
         let mut op_of_id: HashMap<u32, usize> = HashMap::new();
@@ -556,7 +558,20 @@ pub fn oracle_c12(cfg: &LwCfg, si: &ScriptInfo, tr: &Trace, check_resend_livenes
         for r in tr.rxs.iter().filter(|r| r.side == side && r.parsed) {
             if let Some(Frame::AckFrame(af)) = &tr.ems[r.em].frame {
                 let mut frames = Vec::new();
-                for g in af.frame_acks.iter() { for b in 0..32 { if g.bitfield & (1 << b) != 0 { frames.push(g.base_id.wrapping_add(b)); } } }
+                // An ack group is processed only if every frame id it spans is still in the sender's
+                // frame log (frames are forgotten after 4 RTT); groups for forgotten or unknown frames
+                // are ignored as a whole, which C15 demands. The log bounds at the time the ack is
+                // handed over are those after the sender's previous step plus the frames sent since.
+                let log_base = tr.obs.iter().filter(|o| o.side == side && o.round < r.round).last().map_or(cfg.fbase[side], |o| o.probe.tx_frame_log_base);
+                let mut next = cfg.fbase[side];
+                for e in tr.ems[..].iter().filter(|e| e.side == side && (e.round < r.round || (e.round == r.round && e.step_no <= r.step_no))) { if let Some(Frame::DataFrame(df)) = &e.frame { next = df.sequence_id.wrapping_add(1); } }
+                let log_len = next.wrapping_sub(log_base);
+                for g in af.frame_acks.iter() {
+                    let size = 32 - g.bitfield.leading_zeros();
+                    let in_log = size > 0 && g.base_id.wrapping_sub(log_base) < log_len && g.base_id.wrapping_add(size - 1).wrapping_sub(log_base) < log_len;
+                    if !in_log { continue; }
+                    for b in 0..32 { if g.bitfield & (1 << b) != 0 { frames.push(g.base_id.wrapping_add(b)); } }
+                }
                 acks.push(AckSeen { rx_round: r.round, step_no: r.step_no, frames, pbase_rel: af.packet_window_base_id.wrapping_sub(start_base) & 0xFFFFF });
             }
         }
@@ -566,7 +581,7 @@ pub fn oracle_c12(cfg: &LwCfg, si: &ScriptInfo, tr: &Trace, check_resend_livenes
             match mode {
                 SendMode::Unreliable | SendMode::TimeSensitive => {
                     if list.len() > 1 {
-                        return Some(viol("C12.once", format!("C12.once:{}", mode_char(mode)), format!("side {}: fragment {} of {:?} packet id {} (op {}) was transmitted {} times (rounds {:?})", side, frag, mode, pid, op, list.len(), list.iter().map(|(e, _)| tr.ems[*e].round).collect::<Vec<_>>())));
+                        push(viol("C12.once", format!("C12.once:{}", mode_char(mode)), format!("side {}: fragment {} of {:?} packet id {} (op {}) was transmitted {} times (rounds {:?})", side, frag, mode, pid, op, list.len(), list.iter().map(|(e, _)| tr.ems[*e].round).collect::<Vec<_>>())), &mut out);
                     }
                 }
                 _ => {}
@@ -577,7 +592,15 @@ pub fn oracle_c12(cfg: &LwCfg, si: &ScriptInfo, tr: &Trace, check_resend_livenes
                 let first = list.iter().map(|(e, _)| &tr.ems[*e]).min_by_key(|e| (e.round, e.step_no)).unwrap();
                 let step_at_send = tr.obs.iter().filter(|o| o.side == side && o.round < sub_round && o.stepped).count() as u32;
                 if first.step_no > step_at_send {
-                    return Some(viol("C12.ts-late", "C12.ts-late".into(), format!("side {}: TimeSensitive packet id {} (op {}, submitted round {}) first reached the wire in round {} after {} step(s) following its send()", side, pid, op, sub_round, first.round, first.step_no - step_at_send)));
+                    // Was the packet taken off the send queue in time (and then held back by the
+                    // flush budget or the frame window), or was it still queued after the step that
+                    // should have discarded it? The send queue is FIFO, so the packet is still in it
+                    // iff the queue is longer than the number of packets submitted after it.
+                    let o = tr.obs.iter().filter(|o| o.side == side && o.stepped && o.round >= sub_round).next();
+                    let later = |round: usize| si.ops.iter().enumerate().filter(|(i, x)| x.side == side && matches!(x.kind, OpKind::Send { .. }) && *i > op && x.round <= round).count();
+                    let dequeued = o.map_or(false, |o| o.probe.send_queue_len <= later(o.round));
+                    let sig = if dequeued { "C12.ts-late:dequeued-in-time-held-by-budget-or-window" } else { "C12.ts-late:still-queued-after-step" };
+                    push(viol("C12.ts-late", sig.into(), format!("side {}: TimeSensitive packet id {} (op {}, submitted round {}) first reached the wire in round {} after {} step(s) following its send()", side, pid, op, sub_round, first.round, first.step_no - step_at_send)), &mut out);
                 }
             }
             if mode == SendMode::Persistent || mode == SendMode::Reliable {
@@ -592,7 +615,7 @@ pub fn oracle_c12(cfg: &LwCfg, si: &ScriptInfo, tr: &Trace, check_resend_livenes
                         let covers = list[..k].iter().any(|(_, f)| a.frames.contains(f));
                         let moved_past = a.pbase_rel < 0x80000 && rel < a.pbase_rel;
                         if covers || moved_past {
-                            return Some(viol("C12.after-ack", format!("C12.after-ack:{}", if covers { "frame-ack" } else { "window-base" }), format!("side {}: fragment {} of {:?} packet id {} was transmitted again in round {} although {} had been handed to the sender in round {}", side, frag, mode, pid, e.round, if covers { "an acknowledgement of a frame carrying it" } else { "a packet window base beyond it" }, a.rx_round)));
+                            push(viol("C12.after-ack", format!("C12.after-ack:{}", if covers { "frame-ack" } else { "window-base" }), format!("side {}: fragment {} of {:?} packet id {} was transmitted again in round {} although {} had been handed to the sender in round {}", side, frag, mode, pid, e.round, if covers { "an acknowledgement of a frame carrying it" } else { "a packet window base beyond it" }, a.rx_round)), &mut out);
                         }
                     }
                 }
@@ -601,14 +624,14 @@ pub fn oracle_c12(cfg: &LwCfg, si: &ScriptInfo, tr: &Trace, check_resend_livenes
                     let acked = acks.iter().any(|a| list.iter().any(|(_, f)| a.frames.contains(f)) || (a.pbase_rel < 0x80000 && rel < a.pbase_rel));
                     let last = tr.obs.iter().filter(|o| o.side == side).last().unwrap();
                     if !acked && !last.pending {
-                        return Some(viol("C12.until-ack", "C12.until-ack".into(), format!("side {}: fragment {} of {:?} packet id {} was never acknowledged, yet the sender stopped retransmitting it (nothing pending at the horizon)", side, frag, mode, pid)));
+                        push(viol("C12.until-ack", "C12.until-ack".into(), format!("side {}: fragment {} of {:?} packet id {} was never acknowledged, yet the sender stopped retransmitting it (nothing pending at the horizon)", side, frag, mode, pid)), &mut out);
                     }
                 }
             }
         }
         let _ = frame_em;
     }
-    None
+    out
 }
 
 /// Identifies which submitted packet a first fragment (or whole packet) on the wire belongs to.
